@@ -344,12 +344,20 @@ fn sig_types() -> Vec<(&'static str, ArgumentType, Ty)> {
         ("array[string]", ArgumentType::TypedArray(Box::new(ArgumentType::String)), Ty::ArrayOf(Box::new(Ty::String))),
         ("string|number", ArgumentType::Union(vec![ArgumentType::String, ArgumentType::Number]), Ty::Union(vec![Ty::String, Ty::Number])),
         ("array|expref", ArgumentType::Union(vec![ArgumentType::Array, ArgumentType::Expref]), Ty::Union(vec![Ty::Array, Ty::Expref])),
+        ("array[array[number]]", ArgumentType::TypedArray(Box::new(ArgumentType::TypedArray(Box::new(ArgumentType::Number)))), Ty::ArrayOf(Box::new(Ty::ArrayOf(Box::new(Ty::Number))))),
+        ("array[string|number]", ArgumentType::TypedArray(Box::new(ArgumentType::Union(vec![ArgumentType::String, ArgumentType::Number]))), Ty::ArrayOf(Box::new(Ty::Union(vec![Ty::String, Ty::Number])))),
+        ("array[any]", ArgumentType::TypedArray(Box::new(ArgumentType::Any)), Ty::ArrayOf(Box::new(Ty::Any))),
+        ("array[object]", ArgumentType::TypedArray(Box::new(ArgumentType::Object)), Ty::ArrayOf(Box::new(Ty::Object))),
     ]
 }
 
 /// a CustomFunction is only invoked when the arguments satisfy its signature
 fn check_signatures(st: &mut Stats) {
-    let classes = crate::checks::c06::classes(false);
+    let mut classes = crate::checks::c06::classes(false);
+    classes.extend(vec![
+        ("array-of-number-arrays", "`[[1],[2]]`"), ("array-of-mixed-arrays", "`[[1],[\"a\"]]`"), ("number-string-number", "`[1,\"a\",2]`"),
+        ("array-of-objects", "`[{\"a\":1},{}]`"), ("object-then-number", "`[{},1]`"),
+    ]);
     for (tname, at, ty) in sig_types() {
         for variadic in [false, true] {
             let mut rt = Runtime::new();
